@@ -104,7 +104,7 @@ func cat10(a, b int64) int64 {
 }
 
 var monoids = []monoid.Monoid[int64]{
-	monoid.FromOp[int64](0, checked(m31)),
+	monoid.FromOp[int64](7, checked(m31)), // the empty element is NOT the zero value: a Fold that starts from the zero value is visible
 	monoid.FromOp[int64](0, checked(cat10)),
 }
 
